@@ -10,6 +10,12 @@ is of a kind DuplicateValue copies (number, text, boolean, list, dictionary) / d
 type, exception).  `Disj h a b`: `a` and `b` have no copied-kind cell in common.  `MutSeq a b h h'`: a history of
 allocations and of writes into copied-kind cells below `b`, taking `h` to `h'`.  `resolve x s`: the address the name
 `x` denotes in state `s` (vm.FindElement).
+
+Program level (last section): `copies_independent_any_outcome`, `copies_independent_program_level` (after `令 y 为 x`, any
+list of element / key assignments and built-in method calls through `y` leaves every cell that existed before — hence
+`x` — untouched), `original_changes_invisible_through_copy` (the symmetric statement), and the two witnesses showing which
+side conditions the first formulation `copies_independent_program_level_full` lacked
+(`copies_independent_program_level_full_false`, `copies_independent_needs_coherent_frames`).
 -/
 import ZnVerif.Model.Interp
 import ZnVerif.Proofs.Heap
@@ -18,6 +24,7 @@ import ZnVerif.Proofs.HeapMutators
 import ZnVerif.Proofs.HeapStores
 import ZnVerif.Proofs.HeapSites
 import ZnVerif.Proofs.HeapMono
+import ZnVerif.Proofs.CopyProgram
 set_option linter.unusedSectionVars false
 set_option linter.unusedVariables false
 
@@ -633,7 +640,7 @@ theorem push_back_on_copy_invisible (n : Nat) (a b r x : Addr) (items : List Add
   exact mutSeq_preserves (push_back_mutSeq n a b r x items s1 s2 res tx h hc htx hr hsep) n t hsep
     (content_ext hp.ext n a t ht)
 
-/-! ## what is not proved: the program-level closure -/
+/-! ## the program-level closure -/
 
 /-- literal expressions that mention no name: numbers, texts, lists and dictionaries of such -/
 inductive ClosedLit : Expr → Prop
@@ -656,17 +663,33 @@ inductive ThroughName (y : String) : Stmt → Prop
   | method (ln l : Nat) (p : Expr) (m : Ident) (params : List Expr) : PathFrom y p → (∀ e ∈ params, ClosedLit e) →
       ThroughName y (.expr (.mcall ln p [.call l (some m) params none] none))
 
-/-- The full program-level statement of the first sentence of C07: after `令 y 为 x`, whatever changes are then made
-through `y`, `x` reads as before.  NOT PROVED here.  Proved instead, at the level of the heap and of the evaluator's
-individual operations: `vardecl_stores_copy` (the declaration stores a separated copy), `copy_independent` /
-`separated_independent` (no history of writes below one of two separated values changes the other, by induction on
-the history), `element_store_is_mutation_through`, `push_back_is_mutation_through`,
-`other_mutators_are_mutations_through` (the model's assignment stores and mutating methods are such writes),
-`mutators_frame` (they write nothing else), `literals_fresh` (literal arguments are new cells).  `index_read_stays_below`
-(access paths stay below the name).  Missing for the closure: the induction over the statement list that threads these
-through `evalStmt` / `evalExpr` / `memberIV` / `execMethodFunction` — i.e. the book-keeping of call frames and scopes
-around a method call (they do not touch the heap, but `resolve` has to be followed through `pushFrame` / `popFrame`),
-and that literal arguments are readable and separated values (`literals_fresh` gives freshness of the container only). -/
+/-- the vocabulary above is the one of Proofs/CopyProgram.lean (`LitExpr`, `PathExpr`, `ThroughStmt`) -/
+theorem ClosedLit.toLit {e : Expr} (h : ClosedLit e) : LitExpr e := by
+  induction h with
+  | num i h => exact .num i h
+  | str ln x => exact .str ln x
+  | arr ln items _ ih => exact .arr ln items ih
+  | hm ln kvs hk _ ih => exact .hm ln kvs hk ih
+
+theorem PathFrom.toPath {y : String} {p : Expr} (h : PathFrom y p) : PathExpr y p := by
+  induction h with
+  | root ln => exact .root ln
+  | index ln p idx _ hidx ih => exact .index ln p idx ih hidx.toLit
+
+theorem ThroughName.toStmt {y : String} {st : Stmt} (h : ThroughName y st) : ThroughStmt y st := by
+  cases h with
+  | assign ln l p idx rhs hp hidx hrhs => exact .assign ln l p idx rhs hp.toPath hidx.toLit hrhs.toLit
+  | method ln l p m params hp hpar => exact .method ln l p m params hp.toPath (fun e he => (hpar e he).toLit)
+
+/-- The program-level statement of the first sentence of C07 as it was first written down: after `令 y 为 x`, whatever
+changes are then made through `y` and whatever the outcome `r2` of the list, `x` *resolves* in the final state and reads
+as before.  **False as stated** (`copies_independent_program_level_full_false`): a built-in method call that fails
+(unknown method, wrong argument, out of fuel, panic) leaves its call frame on the stack — as the Go code does — and the
+native module `-1` current, so in the final state of an *aborted* list `vm.FindElement` looks `x` up in the wrong module.
+(`x`'s value is untouched and its module's scope still binds it: `copies_independent_any_outcome`.)  It also fails on
+machine states whose top frame does not belong to the current module (`copies_independent_needs_coherent_frames`), which
+`PopCallFrame` after a *successful* call exposes.  The true variants are `copies_independent_program_level` (normal
+outcome, coherent frame stack: the statement below word for word) and `copies_independent_any_outcome` (every outcome). -/
 def copies_independent_program_level_full : Prop :=
   ∀ (ν : Type) [NumOps ν] (n : Nat) (x y : String) (stmts : List Stmt) (s s1 s2 : VM ν) (a r1 : Addr) (t : Tree ν)
     (r2 : Res (Option Addr)),
@@ -676,6 +699,96 @@ def copies_independent_program_level_full : Prop :=
     (∀ st ∈ stmts, ThroughName y st) →
     stmtsLoop (evalStmt n) none stmts s1 = (r2, s2) →
     ∃ a', resolve x s2 = some a' ∧ content n s2.heap a' = some t
+
+/-- the module of the top call frame — what `PopCallFrame` makes the current module (`-1` on an empty stack) -/
+abbrev topModule : List Frame → Int := topMod
+
+/-- name lookup in a given scope: predefined names first, then the scope, innermost symbol first -/
+abbrev lookupIn (g : List (String × Addr)) (sc : Scope) (nm : String) : Option Addr := resolveIn g sc nm
+
+/-- `vm.FindElement` is `lookupIn` the scope of the current module -/
+theorem resolve_eq_lookupIn (nm : String) (s : VM ν) (sc : Scope) (h : getScope s.csModuleID s = some sc) :
+    resolve nm s = lookupIn s.globals sc nm := by
+  unfold resolve lookupIn resolveIn
+  rw [h]
+  rfl
+
+/-- **copies_independent_any_outcome.**  `令 y 为 x` on plain data (no object below `x`) in a machine state whose top frame
+belongs to the current module, then any list of changes through `y` — element / key assignments `y#i… = literal` and
+built-in method calls `以 y#i…（m：literals）` with any method name and any literal arguments — run by the statement loop
+with ANY outcome `r2` (a value, an error in the middle of the list, a panic, out of fuel).  Then in the final state:
+(1) no cell that existed before the declaration has changed — in particular nothing below `x`; (2) the predefined names
+are the same; (3) the scope of the declaring module still binds `x` to the same address `a`; (4) `a` reads as `t`, as
+before; (5) the current module is the declaring one or — after a failed built-in call, whose frame stays on the stack —
+the native module `-1`; (6) whenever the declaring module is current, `x` resolves to `a`; (7) after a normal end of the
+list it is current, and is the module of the top frame.  (Proof: Proofs/CopyZone.lean, Proofs/CopyProgram.lean — an
+invariant on the whole heap, threaded through `evalStmt`, `evalExpr`, `memberIV`, `reduceLHS`, `execMethodFunction` with
+its frame push / pop, and every branch of `builtinMethod`.) -/
+theorem copies_independent_any_outcome (n : Nat) (x y : String) (stmts : List Stmt) (s s1 s2 : VM ν) (a r1 : Addr)
+    (t : Tree ν) (r2 : Res (Option Addr))
+    (hxy : x ≠ y) (hres : resolve x s = some a) (hcont : content n s.heap a = some t)
+    (hplain : ∀ i, Reach s.heap a i → ¬ IsRef s.heap i)
+    (hframes : topModule s.stack = s.csModuleID)
+    (hdecl : evalStmt n (.varDecl 0 [(1, [⟨0, y⟩], .id ⟨0, x⟩)]) s = (.ok r1, s1))
+    (hall : ∀ st ∈ stmts, ThroughName y st)
+    (hloop : stmtsLoop (evalStmt n) none stmts s1 = (r2, s2)) :
+    (∀ i, i < s.heap.size → s2.heap[i]? = s.heap[i]?) ∧
+    s2.globals = s.globals ∧
+    (∃ sc, getScope s.csModuleID s2 = some sc ∧ lookupIn s.globals sc x = some a) ∧
+    content n s2.heap a = some t ∧
+    (s2.csModuleID = s.csModuleID ∨ s2.csModuleID = -1) ∧
+    (s2.csModuleID = s.csModuleID → resolve x s2 = some a) ∧
+    ((∃ v, r2 = .ok v) → s2.csModuleID = s.csModuleID ∧ topModule s2.stack = s.csModuleID) := by
+  rcases program_copy_new n 0 0 0 x y stmts s s1 s2 a r1 t none r2 hxy hres hcont hplain hframes hdecl
+    (fun st hst => (hall st hst).toStmt) hloop with ⟨h1, h2, ⟨sc, h3, h4⟩, h5, h6, h7⟩
+  refine ⟨h1, h2, ⟨sc, h3, h4⟩, h5, h6, fun hcs => ?_, fun hv => ⟨(h7 hv).1, (h7 hv).2.1⟩⟩
+  rw [resolve_eq_lookupIn x s2 sc (by rw [hcs]; exact h3), h2]
+  exact h4
+
+/-- **copies_independent_program_level.**  The statement `copies_independent_program_level_full`, word for word, with its
+two missing side conditions made explicit: the top frame of the initial state belongs to the current module (true of
+every state the evaluator itself produces: `PushCallFrame` / `PopCallFrame` keep it), and the list of changes ended
+normally (`r2 = .ok v`).  Then `x` resolves, to the same address, and reads as before. -/
+theorem copies_independent_program_level (n : Nat) (x y : String) (stmts : List Stmt) (s s1 s2 : VM ν) (a r1 : Addr)
+    (t : Tree ν) (v : Option Addr) :
+    x ≠ y → resolve x s = some a → content n s.heap a = some t →
+    (∀ i, Reach s.heap a i → ¬ IsRef s.heap i) →
+    topModule s.stack = s.csModuleID →
+    evalStmt n (.varDecl 0 [(1, [⟨0, y⟩], .id ⟨0, x⟩)]) s = (.ok r1, s1) →
+    (∀ st ∈ stmts, ThroughName y st) →
+    stmtsLoop (evalStmt n) none stmts s1 = (.ok v, s2) →
+    ∃ a', resolve x s2 = some a' ∧ content n s2.heap a' = some t := by
+  intro hxy hres hcont hplain hframes hdecl hall hloop
+  rcases copies_independent_any_outcome n x y stmts s s1 s2 a r1 t (.ok v) hxy hres hcont hplain hframes hdecl hall hloop
+    with ⟨_, _, _, h4, _, h6, h7⟩
+  exact ⟨a, h6 (h7 ⟨v, rfl⟩).1, h4⟩
+
+/-- **original_changes_invisible_through_copy** (the symmetric statement).  `令 y 为 x` (`x` a name, plain data below it,
+coherent frame stack) makes `y` denote an address `b` that reads as `t`; then any list of changes through `x` — the
+original —, with any outcome: no cell below `b` has changed, the declaring module's scope still binds `y` to `b`, `b`
+still reads as `t`; the current module is the declaring one or `-1`; whenever it is the declaring one — in particular
+after a normal end — `y` resolves to `b`. -/
+theorem original_changes_invisible_through_copy (n : Nat) (x y : String) (stmts : List Stmt) (s s1 s2 : VM ν) (a r1 : Addr)
+    (t : Tree ν) (r2 : Res (Option Addr))
+    (hxy : x ≠ y) (hxname : tryParseNumber (strCps x) ≠ .number)
+    (hres : resolve x s = some a) (hcont : content n s.heap a = some t)
+    (hplain : ∀ i, Reach s.heap a i → ¬ IsRef s.heap i)
+    (hframes : topModule s.stack = s.csModuleID)
+    (hdecl : evalStmt n (.varDecl 0 [(1, [⟨0, y⟩], .id ⟨0, x⟩)]) s = (.ok r1, s1))
+    (hall : ∀ st ∈ stmts, ThroughName x st)
+    (hloop : stmtsLoop (evalStmt n) none stmts s1 = (r2, s2)) :
+    ∃ b, resolve y s1 = some b ∧ content n s1.heap b = some t ∧
+      (∀ i, Reach s1.heap b i → s2.heap[i]? = s1.heap[i]?) ∧
+      (∃ sc, getScope s.csModuleID s2 = some sc ∧ lookupIn s.globals sc y = some b) ∧
+      content n s2.heap b = some t ∧
+      (s2.csModuleID = s.csModuleID ∨ s2.csModuleID = -1) ∧
+      (s2.csModuleID = s.csModuleID → resolve y s2 = some b) ∧
+      ((∃ v, r2 = .ok v) → s2.csModuleID = s.csModuleID ∧ topModule s2.stack = s.csModuleID) := by
+  rcases program_copy_old n 0 0 0 x y stmts s s1 s2 a r1 t none r2 hxy hxname hres hcont hplain hframes hdecl
+    (fun st hst => (hall st hst).toStmt) hloop with ⟨b, h1, h2, h3, h4, ⟨sc, h5, h6⟩, h7, h8, h9⟩
+  refine ⟨b, h1, h2, h3, ⟨sc, h5, h6⟩, h7, h8, fun hcs => ?_, fun hv => ⟨(h9 hv).1, (h9 hv).2.1⟩⟩
+  rw [resolve_eq_lookupIn y s2 sc (by rw [hcs]; exact h5), h4]
+  exact h6
 
 /-! ## non-vacuity: concrete instances of the hypotheses above (toy number type `Int`) -/
 
@@ -699,7 +812,7 @@ local instance toyNum : NumOps Int where
   leZero := (· ≤ 0)
   ofInt := id
   toInt := id
-  parse := fun _ => 1
+  parse := fun cps => match cps with | [c] => (c : Int) - 48 | _ => 1   -- one-digit literals
   fmt := fun x => toString x
 
 /-- `[[1, 2], 3]` at address 4 (inner list at 2) -/
@@ -804,6 +917,127 @@ example : ¬ Reach (#[.num 1, .arr [0]] : Array (Cell Int)) 0 1 := fun h => by
 build one any more — `mutators_preserve_acyclicity`) -/
 example (n : Nat) : (dup n 1 ({ heap := #[.num 1, .arr [0, 1]] } : VM Int)).1 = .fuel :=
   dup_on_cycle_never_returns n _ 1 rfl rfl
+
+/-! ### the program-level theorems: the refuting witnesses, and instances that meet every hypothesis
+
+(The runs are evaluated by the kernel: `decide +kernel` on decidable facts about the final state — outcome, addresses,
+module ids, displayed text — so no state equation is proved by unfolding the evaluator in the elaborator.) -/
+
+/-- one module, its script frame, `甲` bound to the list `【1，【2，3】】` (cell 4; the inner list is cell 3) -/
+def exProg : VM Int :=
+  { heap := #[.num 1, .num 2, .num 3, .arr [1, 2], .arr [0, 3]],
+    scopes := [(0, { syms := [{ name := "甲", depth := 0, isConst := false, ext := none, val := 4 }] })],
+    csModuleID := 0, stack := [{ moduleId := 0, callType := 1 }] }
+def exTree : Tree Int := .list [.num 1, .list [.num 2, .num 3]]
+/-- `令 乙 为 甲` -/
+def exDecl : Stmt := .varDecl 0 [(1, [⟨0, "乙"⟩], .id ⟨0, "甲"⟩)]
+/-- `z#2#1 = 9` -/
+def exAssign (z : String) : Stmt :=
+  .expr (.assign 0 (.member 0 1 (.member 0 1 (.id ⟨0, z⟩) 2 none (.id ⟨0, "2"⟩)) 2 none (.id ⟨0, "1"⟩)) (.id ⟨0, "9"⟩))
+/-- `以 z（后增：4）` -/
+def exPush (z : String) : Stmt := .expr (.mcall 0 (.id ⟨0, z⟩) [.call 0 (some ⟨0, "后增"⟩) [.id ⟨0, "4"⟩] none] none)
+/-- `以 z（无）`: no such method, error 46 -/
+def exBad (z : String) : Stmt := .expr (.mcall 0 (.id ⟨0, z⟩) [.call 0 (some ⟨0, "无"⟩) [] none] none)
+
+theorem exAssign_through (z : String) : ThroughName z (exAssign z) :=
+  .assign 0 0 _ _ _ (.index 0 _ _ (.root 0) (.num _ (by decide +kernel))) (.num _ (by decide +kernel)) (.num _ (by decide +kernel))
+theorem exPush_through (z : String) : ThroughName z (exPush z) :=
+  .method 0 0 _ _ _ (.root 0) (by intro e he; simp at he; subst he; exact .num _ (by decide +kernel))
+theorem exBad_through (z : String) : ThroughName z (exBad z) :=
+  .method 0 0 _ _ _ (.root 0) (by intro e he; simp at he)
+
+theorem exProg_plain : ∀ i, Reach exProg.heap 4 i → ¬ IsRef exProg.heap i := by
+  rintro i _ ⟨c, hc, hm, _⟩
+  rcases i with _ | _ | _ | _ | _ | i <;> simp [exProg] at hc <;> subst hc <;> cases hm
+
+/-- comparing outcomes by a decidable test (so that the kernel can evaluate a run) -/
+def resIs {α : Type} [DecidableEq α] : Res α → Res α → Bool
+  | .ok a, .ok b => decide (a = b)
+  | .err e, .err e' => decide (e = e')
+  | .panic, .panic => true
+  | .fuel, .fuel => true
+  | .unmodelled, .unmodelled => true
+  | _, _ => false
+
+theorem run_eq {α : Type} [DecidableEq α] (x : Res α × VM Int) (r : Res α) (h : resIs x.1 r = true) : x = (r, x.2) := by
+  rcases x with ⟨r0, s0⟩
+  have : r0 = r := by
+    cases r0 <;> cases r <;> simp [resIs] at h <;> first | rfl | (subst h; rfl)
+  subst this
+  rfl
+
+/-- the state after the declaration: the copy is at 9 (`乙`), 10 is the statement's 空 -/
+def exAfterDecl : VM Int := (evalStmt 6 exDecl exProg).2
+theorem exDecl_run : evalStmt 6 exDecl exProg = (.ok 10, exAfterDecl) := run_eq _ _ (by decide +kernel)
+example : resolve "乙" exAfterDecl = some 9 ∧ resIs (display 6 9 exAfterDecl).1 (.ok "[1，[2，3]]") = true := by decide +kernel
+
+/-- **the refuting witness of `copies_independent_program_level_full`**: `令 乙 为 甲` and then the single statement
+`以 乙（无）` (no such method: error 46).  The list aborts; the frame of the failed call is still on the stack, the current
+module is `-1`, and `甲` does not resolve in that state (although nothing below it changed). -/
+def exAborted : VM Int := (stmtsLoop (evalStmt 6) none [exBad "乙"] exAfterDecl).2
+theorem exAborted_run : stmtsLoop (evalStmt 6) none [exBad "乙"] exAfterDecl = (.err (.rt 46), exAborted) :=
+  run_eq _ _ (by decide +kernel)
+theorem exAborted_facts : exAborted.csModuleID = -1 ∧ exAborted.stack.length = 2 ∧ resolve "甲" exAborted = none := by
+  decide +kernel
+
+theorem copies_independent_program_level_full_false : ¬ copies_independent_program_level_full := by
+  intro h
+  have := h Int 6 "甲" "乙" [exBad "乙"] exProg exAfterDecl exAborted 4 10 exTree (.err (.rt 46)) (by decide) (by rfl) (by rfl)
+    exProg_plain exDecl_run (by intro st hst; simp at hst; subst hst; exact exBad_through _) exAborted_run
+  rcases this with ⟨a', h1, _⟩
+  rw [exAborted_facts.2.2] at h1
+  cases h1
+
+/-- … while everything `copies_independent_any_outcome` promises holds of that aborted run -/
+example : content 6 exAborted.heap 4 = some exTree ∧ (exAborted.csModuleID = 0 ∨ exAborted.csModuleID = -1) :=
+  have h := copies_independent_any_outcome 6 "甲" "乙" [exBad "乙"] exProg exAfterDecl exAborted 4 10 exTree (.err (.rt 46))
+    (by decide) (by rfl) (by rfl) exProg_plain (by rfl) exDecl_run
+    (by intro st hst; simp at hst; subst hst; exact exBad_through _) exAborted_run
+  ⟨h.2.2.2.1, h.2.2.2.2.1⟩
+
+/-- **the second side condition cannot be dropped either**: the same program on a machine state without any call frame
+(so `topModule = -1 ≠ 0 = csModuleID`), with a list that ends normally: `PopCallFrame` after the successful `后增` makes
+the native module current, and `甲` does not resolve. -/
+def exLoose : VM Int := { exProg with stack := [] }
+def exLooseDecl : VM Int := (evalStmt 6 exDecl exLoose).2
+def exLooseEnd : VM Int := (stmtsLoop (evalStmt 6) none [exPush "乙"] exLooseDecl).2
+theorem copies_independent_needs_coherent_frames :
+    "甲" ≠ "乙" ∧ resolve "甲" exLoose = some 4 ∧ content 6 exLoose.heap 4 = some exTree ∧
+    (∀ i, Reach exLoose.heap 4 i → ¬ IsRef exLoose.heap i) ∧
+    evalStmt 6 exDecl exLoose = (.ok 10, exLooseDecl) ∧ (∀ st ∈ [exPush "乙"], ThroughName "乙" st) ∧
+    stmtsLoop (evalStmt 6) none [exPush "乙"] exLooseDecl = (.ok (some 9), exLooseEnd) ∧
+    topModule exLoose.stack ≠ exLoose.csModuleID ∧ resolve "甲" exLooseEnd = none :=
+  ⟨by decide, by rfl, by rfl, exProg_plain, run_eq _ _ (by decide +kernel),
+   by intro st hst; simp at hst; subst hst; exact exPush_through _,
+   run_eq _ _ (by decide +kernel), by decide +kernel, by decide +kernel⟩
+
+/-- **an instance that meets every hypothesis of `copies_independent_program_level`**: `令 乙 为 甲；乙#2#1 = 9；以 乙（后增：4）`.
+`乙` (cell 9) now displays as `[1，[9，3]，4]`; `甲` still reads `【1，【2，3】】`. -/
+def exEnd : VM Int := (stmtsLoop (evalStmt 6) none [exAssign "乙", exPush "乙"] exAfterDecl).2
+theorem exEnd_run : stmtsLoop (evalStmt 6) none [exAssign "乙", exPush "乙"] exAfterDecl = (.ok (some 9), exEnd) :=
+  run_eq _ _ (by decide +kernel)
+example : resolve "乙" exEnd = some 9 ∧ resIs (display 6 9 exEnd).1 (.ok "[1，[9，3]，4]") = true := by decide +kernel
+example : ∃ a', resolve "甲" exEnd = some a' ∧ content 6 exEnd.heap a' = some exTree :=
+  copies_independent_program_level 6 "甲" "乙" [exAssign "乙", exPush "乙"] exProg exAfterDecl exEnd 4 10 exTree (some 9)
+    (by decide) (by rfl) (by rfl) exProg_plain (by rfl) exDecl_run
+    (by intro st hst; simp at hst; rcases hst with rfl | rfl; exact exAssign_through _; exact exPush_through _) exEnd_run
+
+/-- **and of `original_changes_invisible_through_copy`**: `令 乙 为 甲；甲#2#1 = 9；以 甲（后增：4）`.
+`甲` (cell 4) now displays as `[1，[9，3]，4]`; `乙` (cell 9) still reads `【1，【2，3】】`. -/
+def exEndX : VM Int := (stmtsLoop (evalStmt 6) none [exAssign "甲", exPush "甲"] exAfterDecl).2
+theorem exEndX_run : stmtsLoop (evalStmt 6) none [exAssign "甲", exPush "甲"] exAfterDecl = (.ok (some 4), exEndX) :=
+  run_eq _ _ (by decide +kernel)
+example : resolve "甲" exEndX = some 4 ∧ resIs (display 6 4 exEndX).1 (.ok "[1，[9，3]，4]") = true := by decide +kernel
+example : resolve "乙" exEndX = some 9 ∧ content 6 exEndX.heap 9 = some exTree := by
+  rcases original_changes_invisible_through_copy 6 "甲" "乙" [exAssign "甲", exPush "甲"] exProg exAfterDecl exEndX 4 10 exTree
+    (.ok (some 4)) (by decide) (by decide +kernel) (by rfl) (by rfl) exProg_plain (by rfl) exDecl_run
+    (by intro st hst; simp at hst; rcases hst with rfl | rfl; exact exAssign_through _; exact exPush_through _) exEndX_run
+    with ⟨b, _, _, _, _, h5, _, h7, h8⟩
+  have h9 : resolve "乙" exEndX = some b := h7 (h8 ⟨_, rfl⟩).1
+  have hb : resolve "乙" exEndX = some 9 := by decide +kernel
+  have hb9 : b = 9 := Option.some.inj (h9.symm.trans hb)
+  subst hb9
+  exact ⟨hb, h5⟩
 
 end examples
 
